@@ -8,7 +8,6 @@ Section Inv.
   Variable c : cfg.
   Variable st : store.
   Variable r0 : Z.
-  Hypothesis G : guard c st = true.
 
   Let M := matching (c_kind c) st.
 
@@ -57,7 +56,7 @@ Section Inv.
       - intros seqs upd Hs. rewrite Hp in Hs. discriminate. }
     destruct (gpd (c_kind c) st (lp s + 1) (Z.min (c_maxcnt c) (latest - lp s)) (c_maxsize c))
       as [| |seqs upd] eqn:Eg; try exact I.
-    apply (gpd_spec c st _ _ _ _ G) in Eg as [Hupd Hseqs].
+    apply gpd_spec in Eg as [Hupd Hseqs].
     replace (lp s + 1 - 1) with (lp s) in * by lia. fold M in Hseqs.
     destruct I as [H1 H2 H3 H4].
     destruct seqs as [|x seqs].
@@ -175,7 +174,7 @@ Section Inv.
   Qed.
 End Inv.
 
-(** Block, header and result pushes: no guard, plain consecutive integers. *)
+(** Block, header and result pushes: plain consecutive integers. *)
 Lemma block_kinds_consecutive : forall c st r0 es,
   c_kind c <> KRecv ->
   let s := run_events c st (init_state r0) es in
@@ -183,8 +182,7 @@ Lemma block_kinds_consecutive : forall c st r0 es,
               (rcd s = r0 \/ (acked s <> [] /\ rcd s = last (acked s) 0)).
 Proof.
   intros c st r0 es Hk s.
-  assert (G : guard c st = true) by (unfold guard; destruct (c_kind c); congruence).
-  destruct (inv_reachable c st r0 G es) as [H1 H2 H3 H4]. fold s in H1, H2, H3, H4.
+  destruct (inv_reachable c st r0 es) as [H1 H2 H3 H4]. fold s in H1, H2, H3, H4.
   assert (HM : matching (c_kind c) st = fun _ => true) by (destruct (c_kind c); [reflexivity|congruence|reflexivity]).
   destruct (acked s) as [|a al] eqn:Ea.
   - exists r0, O. split; [reflexivity|]. split; [reflexivity|]. left. apply H1. reflexivity.
@@ -198,9 +196,9 @@ Proof.
     replace (S n) with (n + 1)%nat by lia. rewrite zrange_app. cbn [zrange]. rewrite last_last. lia.
 Qed.
 
-(** Liveness remark: a deliverable block bigger than the size limit stops a
-    receipt-type subscriber for good — every round leaves the position where it
-    was and posts nothing. *)
+(** Progress of a receipt-type subscriber: when the next sequence number is
+    deliverable and its message is smaller than the size limit, the round posts
+    a payload that starts with it. *)
 Lemma skipn_nth : forall (A : Type) (n : nat) (l : list A) e,
   nth_error l n = Some e -> exists tl, skipn n l = e :: tl.
 Proof.
@@ -209,10 +207,46 @@ Proof.
   - cbn [skipn]. apply IH. exact H.
 Qed.
 
+Lemma deliverable_posted : forall c st s latest size,
+  c_kind c = KRecv -> 1 <= c_maxcnt c ->
+  run s = true -> pend s = None -> sl s <= 0 -> 0 < lp s ->
+  lp s < latest -> latest < Z.of_nat (length st) ->
+  lookup st (lp s + 1) = Some (size, true) -> size < c_maxsize c ->
+  let r := step c st s (ESeq latest) in
+  exists seqs upd,
+    snd r = [OPost (lp s + 1 :: seqs) upd] /\
+    pend (fst r) = Some (lp s + 1 :: seqs, upd) /\ lp s + 1 <= upd /\
+    lp (fst r) = lp s /\ rcd (fst r) = rcd s /\ acked (fst r) = acked s.
+Proof.
+  intros c st s latest size Hk Hc Hr Hp Hsl Hlp Hlt Hlen Hl Hsz r. subst r.
+  cbn [step]. rewrite Hr, Hp. cbn [negb].
+  assert (Hs0 : (sl s >? 0) = false) by (rewrite Z.gtb_ltb; apply Z.ltb_ge; lia).
+  rewrite Hs0.
+  unfold process.
+  replace (lp s >=? latest) with false by (symmetry; rewrite Z.geb_leb; apply Z.leb_gt; lia).
+  replace (lp s <=? 0) with false by (symmetry; apply Z.leb_gt; lia).
+  unfold gpd. rewrite Hk.
+  destruct (Z.to_nat (Z.min (c_maxcnt c) (latest - lp s))) as [|n] eqn:En; [lia|].
+  unfold lookup in Hl. unfold suffix.
+  destruct (lp s + 1 <? 0); [discriminate|].
+  destruct (skipn_nth _ _ _ _ Hl) as [tl Etl].
+  assert (Hsome : rcv_loop (c_maxsize c) (S n) (skipn (Z.to_nat (lp s + 1)) st) (lp s + 1) 0 <> None).
+  { apply rcv_loop_some. rewrite skipn_length. lia. }
+  destruct (rcv_loop (c_maxsize c) (S n) (skipn (Z.to_nat (lp s + 1)) st) (lp s + 1) 0)
+    as [[a it]|] eqn:E; [|congruence].
+  rewrite Etl in E. destruct (rcv_loop_progress _ _ _ _ _ _ _ Hsz E) as (Hit & a' & ->).
+  exists a', (lp s + 1 + it - 1). cbn [fst snd lp rcd acked pend].
+  repeat split; try reflexivity. lia.
+Qed.
+
+(** Liveness remark (unchanged by the repair of the boundary test, and pinned by
+    push_test.go Test_PostEVMEvent_bigsize): an entry whose message is not
+    smaller than the size limit is never passed by a receipt-type subscriber —
+    every round leaves the position where it was and posts nothing. *)
 Lemma oversize_stalls : forall c st s latest size has,
   c_kind c = KRecv -> 1 <= c_maxcnt c ->
   run s = true -> pend s = None -> sl s <= 0 -> 0 < lp s ->
-  lookup st (lp s + 1) = Some (size, has) -> c_maxsize c < size ->
+  lookup st (lp s + 1) = Some (size, has) -> c_maxsize c <= size ->
   let r := step c st s (ESeq latest) in
   lp (fst r) = lp s /\ rcd (fst r) = rcd s /\ acked (fst r) = acked s /\
   pend (fst r) = None /\ run (fst r) = true /\ snd r = [].
@@ -234,6 +268,6 @@ Proof.
   cbn [rcv_loop].
   replace (0 + size <? c_maxsize c) with false by (symmetry; apply Z.ltb_ge; lia).
   rewrite andb_false_r.
-  replace (0 + size >? c_maxsize c) with true by (symmetry; apply Z.gtb_lt; lia).
+  replace (0 + size >=? c_maxsize c) with true by (symmetry; rewrite Z.geb_leb; apply Z.leb_le; lia).
   cbn [fst snd lp rcd acked pend run]. repeat split; try assumption; try lia.
 Qed.
